@@ -7,6 +7,7 @@ import (
 	"io"
 
 	"github.com/paulmach/osm"
+	"github.com/paulmach/osm/osmpbf"
 
 	"verif/internal/fw"
 	"verif/internal/gen"
@@ -114,6 +115,32 @@ func c06FullFile(seed uint64, nblocks int, zlib bool) *pbfw.File {
 	return f
 }
 
+// c06SkipFilter drops the kinds a skip mask (1 nodes, 2 ways, 4 relations) suppresses.
+func c06SkipFilter(es []pbfw.Expect, mask int) []pbfw.Expect {
+	if mask == 0 {
+		return es
+	}
+	var out []pbfw.Expect
+	for _, e := range es {
+		switch e.Obj.(type) {
+		case *osm.Node:
+			if mask&1 != 0 {
+				continue
+			}
+		case *osm.Way:
+			if mask&2 != 0 {
+				continue
+			}
+		case *osm.Relation:
+			if mask&4 != 0 {
+				continue
+			}
+		}
+		out = append(out, e)
+	}
+	return out
+}
+
 func c06PrefixExpect(f *pbfw.File, nIntact int) []pbfw.Expect {
 	var out []pbfw.Expect
 	for i := 0; i < nIntact && i < len(f.Blocks); i++ {
@@ -204,6 +231,7 @@ func c06Exec(c fw.Case) *fw.Result {
 				if rd.EagerEOF {
 					key = "C06/cut-eager-eof/" + cls
 				}
+				scanAgain(res, sr, key)
 				if d := pbfw.CompareSeq(want, sr.Objs); d != "" {
 					res.Violatef(key+"/objects", "cut at byte %d of %d (%s, %d decoders): %s", cut, len(data), cls, procs, d)
 				}
@@ -246,6 +274,20 @@ func c06Exec(c fw.Case) *fw.Result {
 		}
 		dmg := map[int]pbfw.Damage{pos: {Kind: cl.name, Arg: c.Int("arg")}}
 		data, _ := f.Encode(dmg)
+		// skip flags do not excuse a reader from noticing damage: with some or all kinds
+		// skipped the delivered prefix shrinks accordingly, the error stays
+		// (only for damage at the file / blob level: damage inside the payload of a kind
+		// that is skipped is legitimately never looked at)
+		skipMask := []int{0, 0, 0, 7, 1, 6, 7, 0}[(c.Seed>>17)%8]
+		if !cl.fileLevel {
+			skipMask = 0
+		}
+		var skipCfg func(*osmpbf.Scanner)
+		if skipMask != 0 {
+			skipCfg = func(s *osmpbf.Scanner) {
+				s.SkipNodes, s.SkipWays, s.SkipRelations = skipMask&1 != 0, skipMask&2 != 0, skipMask&4 != 0
+			}
+		}
 		drd := mon.NewReader(data)
 		drd.Chunk = []int{0, 0, 7, 4096, 64}[(c.Seed>>11)%5]
 		drd.EagerEOF = (c.Seed>>14)%2 == 1
@@ -254,11 +296,12 @@ func c06Exec(c fw.Case) *fw.Result {
 		if pos < 0 {
 			nIntact = 0
 		}
-		want := c06PrefixExpect(f, nIntact)
+		want := c06SkipFilter(c06PrefixExpect(f, nIntact), skipMask)
 		posName := []string{"header", "first", "middle", "last"}[map[int]int{-1: 0, 0: 1, 1: 2, 2: 2, 3: 3}[pos]]
 		key := fmt.Sprintf("C06/damage/%s/%s", cl.name, posName)
-		sr := pbfScan(drd, procs, pos < 0 && c.Int("askheader") == 1, nil, nil)
+		sr := pbfScan(drd, procs, pos < 0 && c.Int("askheader") == 1, skipCfg, nil)
 		res.Event(int64(len(sr.Objs)) + 1)
+		scanAgain(res, sr, key)
 		// the intact prefix must be delivered exactly; nothing of later blocks, nothing invented
 		n := len(want)
 		if len(sr.Objs) < n {
@@ -271,7 +314,7 @@ func c06Exec(c fw.Case) *fw.Result {
 				res.Violatef(key+"/invented", "damage %s in %s block: %d objects delivered beyond the intact prefix (first: %s)", cl.name, posName, len(sr.Objs)-n, objID(sr.Objs[n]))
 			} else {
 				// grey class: objects of the damaged block may be delivered only if they are the true ones
-				all := f.ExpectAll()
+				all := c06SkipFilter(f.ExpectAll(), skipMask)
 				if len(sr.Objs) > len(all) {
 					res.Violatef(key+"/invented", "more objects than the file holds")
 				} else if d := pbfw.CompareSeq(all[:len(sr.Objs)], sr.Objs); d != "" {
@@ -566,7 +609,7 @@ func init() {
 	fw.Register(&fw.Prop{
 		ID:    "C06",
 		Level: "fault_enumeration",
-		Rule: "(a) every byte offset 0..len of small generated files (3-6 blocks) as a cut point, with 1 and 3 decoders, each cut read once from a reader that reports io.EOF by an empty Read and once from one that returns it together with the last bytes; (b) 46 damage classes (size fields, raw_size off by one and far off: 0, negative, around the int32 wrap of size+10%, int32 max, deflate stream, adler, blob encoding, block type, required feature, missing/short/long columns, out-of-range string indexes in 9 places, plain node group, garbage at three levels) x block position {header, first, middle, last} x decoders, a third of the data-block damages in header-less streams, the input served whole, in 7 / 64 / 4096-byte reads, with or without the last bytes arriving together with io.EOF; (c) a non-EOF I/O error (five flavours: plain, wrapping io.EOF, io.ErrUnexpectedEOF, wrapping context.Canceled, io.ErrClosedPipe) injected at every Read call index; (d) random damage inside the protobuf payload of one block with intact framing (bit flips, truncation, over-long prefixes, endless varints): no crash, no hang, neighbours exact. Each case runs in a child process so that a crash or hang is an observation of that case. " +
+		Rule: "(a) every byte offset 0..len of small generated files (3-6 blocks) as a cut point, with 1 and 3 decoders, each cut read once from a reader that reports io.EOF by an empty Read and once from one that returns it together with the last bytes; (b) 46 damage classes (size fields, raw_size off by one and far off: 0, negative, around the int32 wrap of size+10%, int32 max, deflate stream, adler, blob encoding, block type, required feature, missing/short/long columns, out-of-range string indexes in 9 places, plain node group, garbage at three levels) x block position {header, first, middle, last} x decoders, a third of the data-block damages in header-less streams, file- and blob-level damage in three eighths of the cases with skip flags set (one kind, two kinds, all three: the error must still be reported), Scan called again after it returned false, the input served whole, in 7 / 64 / 4096-byte reads, with or without the last bytes arriving together with io.EOF; (c) a non-EOF I/O error (five flavours: plain, wrapping io.EOF, io.ErrUnexpectedEOF, wrapping context.Canceled, io.ErrClosedPipe) injected at every Read call index; (d) random damage inside the protobuf payload of one block with intact framing (bit flips, truncation, over-long prefixes, endless varints): no crash, no hang, neighbours exact. Each case runs in a child process so that a crash or hang is an observation of that case. " +
 			"Signature = cut-position class (in/after size prefix, in/after BlobHeader, in Blob, boundary; header or data block), or (damage class, position), or (chunk size, decoders) for I/O faults.",
 		Assumptions: []string{
 			"a cut at offset 0, after the header block or after any data block is a block boundary (success); anything else must end in a non-nil error",
